@@ -2860,6 +2860,7 @@ class Executor:
                     raise Unsupported("list.remove on a list that may hold duplicates")
             c.mem = z3.Store(c.mem, z, False)
             c.items = None
+            c.len_z, c.seq = None, None   # positions shift: the sequence view is rebuilt on demand
             return NONE
         if name == "copy":
             return Coll(c.kind, c.esort, c.mem, items=list(c.items) if c.items is not None else None, nodup=c.nodup)
